@@ -333,6 +333,7 @@ class C12Copy(Harness):
     bounds_doc = "copy() == original with class, dtype, metadata, statistics (1D, 2D, transformed polar, collection); copy(include_frequencies=False) is empty and fillable over the same bins"
 
     def instances(self, tier):
+        yield "copy-collection-adaptive", dict(kind="collection", empty=False, adaptive=True)
         for kind in ("1d", "2d", "polar", "collection"):
             yield f"copy-{kind}", dict(kind=kind, empty=False)
             if kind != "collection":
@@ -349,13 +350,19 @@ class C12Copy(Harness):
         if k in ("1d", "collection"):
             H1 = E.mod("physt.histogram1d").Histogram1D
             St = E.mod("physt.statistics").Statistics
-            h = H1(np.asarray([0.0, 1.0, 2.0, 3.0]), np.asarray(x["f"], dtype=int), name="n", axis_name="ax", custom="c", stats=St(sum=1.0, sum2=2.0, min=0.0, max=1.0, weight=3.0))
+            if p.get("adaptive"):
+                FWB = E.mod("physt.binnings").FixedWidthBinning
+                h = H1(FWB(bin_width=1.0, bin_count=3, bin_times_min=0, adaptive=True), np.asarray(x["f"], dtype=int), name="n", axis_name="ax", custom="c",
+                       stats=St(sum=1.0, sum2=2.0, min=0.0, max=1.0, weight=3.0))
+            else:
+                h = H1(np.asarray([0.0, 1.0, 2.0, 3.0]), np.asarray(x["f"], dtype=int), name="n", axis_name="ax", custom="c", stats=St(sum=1.0, sum2=2.0, min=0.0, max=1.0, weight=3.0))
             if k == "collection":
                 HC = E.mod("physt.histogram_collection").HistogramCollection
                 col = HC(h, h.copy(), name="col")
                 c = col.copy()
-                obs = {"eq": bool(c == col), "distinct": c is not col and c.histograms[0] is not col.histograms[0], "name": c.name}
-                c.histograms[0].fill(0.5)
+                obs = {"eq": bool(c == col), "distinct": c is not col and c.histograms[0] is not col.histograms[0] and c.binning is not col.binning
+                       and all(m.binning is not s.binning for m in c.histograms for s in col.histograms), "name": c.name}
+                c.histograms[0].fill(7.5 if p.get("adaptive") else 0.5)   # adaptive: far outside, the copy's bins grow
                 obs["source_after"] = full(E, col.histograms[0])
                 obs["source_expected"] = full(E, h)
                 obs["binning_shared_within_copy"] = c.histograms[0].binning is c.binning or bool(c.histograms[0].binning == c.binning)
@@ -383,7 +390,7 @@ class C12Copy(Harness):
         if p["kind"] == "collection":
             yield "copy_equal", obs["eq"] is True
             yield "copy_distinct", obs["distinct"] is True and obs["name"] == "col"
-            yield "member_independent", same_snapshot(cx, obs["source_expected"], obs["source_after"])
+            yield "member_independent", z3.And(same_snapshot(cx, obs["source_expected"], obs["source_after"]), wellformed(cx, obs["source_after"]))
             return
         yield "copy_distinct", obs["distinct"] is True
         c, o = obs["copy"], obs["orig"]
